@@ -74,7 +74,10 @@ contract(f'{TC}::create_trajectory_row', props=('C05',),
              ('density-drag-flag-passed-through', 'result.density_factor == density_factor - 1 and result.drag == drag '
                                                   'and result.flag == flag'),
          ],
-         modifies=[])
+         modifies=[], modular=True, result_shape=None)
+from pyvc.contract import REGISTRY  # noqa: E402
+from .lookup import ROW  # noqa: E402
+REGISTRY[f'{TC}::create_trajectory_row'].result_shape = ROW
 
 # ---------------------------------------------------------------------------------------
 SELF_SD = Obj(tc.TrajectoryCalc, stability_coefficient=Real(), twist=Real())
@@ -83,7 +86,7 @@ contract(f'{TC}::TrajectoryCalc.spin_drift', props=('C05',),
          ensures=[('litz-spin-drift-in-feet-signed-by-twist-absent-without-twist-or-stability',
                    'result == (0 if (self.stability_coefficient == 0 or self.twist == 0) else '
                    '(1 if self.twist > 0 else -1) * 1.25 * (self.stability_coefficient + 1.2) * math.pow(time, 1.83) / 12)')],
-         modifies=[])
+         modifies=[], modular=True, functional='spin_drift')
 
 SELF_SG = Obj(tc.TrajectoryCalc, twist=Real(), length=Real(lo=0), diameter=Real(lo=0), weight=Real(lo=0),
               muzzle_velocity=Real(lo=0))
